@@ -760,6 +760,13 @@ coap_ws_read(coap_session_t *session, uint8_t *data, size_t datalen) {
   }
 
   /* Get in (remaining) data */
+  if (session->ws->data_size > datalen) {
+    /*
+     * The frame in progress does not fit into the provided buffer (it was
+     * refused as too big, or it was started with a larger buffer).
+     */
+    return -1;
+  }
   ret = session->sock.lfunc[COAP_LAYER_WS].l_read(session,
                                                   &data[session->ws->data_ofs],
                                                   session->ws->data_size - session->ws->data_ofs);
